@@ -208,3 +208,34 @@ Example C17_block_budget_nonvacuous :
   eval_asm toy_resolve toy_address (fun t => EOk t) true 1 toy_block 16 30 = BOk (VInt (mk 0x040004 (Some 24%N))) /\
   eval_asm toy_resolve toy_address (fun t => EOk t) true 1 toy_block 16 1 = BErr.
 Proof. vm_compute. repeat split. Qed.
+
+(* ===== substitution hygiene across nesting levels (EvalContext::new_deepened starts from NO token substitutions) ===== *)
+
+(* a context one level deeper knows no textual substitution at all: nothing of the caller's `{name}` map is inherited *)
+Theorem C17_deepened_context_has_no_substitutions : forall parent n, ctx_token_subst (new_deepened parent) n = None.
+Proof. exact deepened_forgets. Qed.
+
+(* an inner binding shadows every outer textual substitution of the same name:
+   a by-value local n of an inner rule is substituted by its hygienised name ... *)
+Theorem C17_inner_local_shadows_outer_substitution : forall parent ps n v,
+  ~ In n (map (fun p => fst (fst p)) ps) ->
+  ctx_token_subst (ctx_set_local (rule_ctx parent ps) n v) n = Some (hygienize_name n).
+Proof. exact inner_local_shadows_outer_subst. Qed.
+
+(* ... a rule parameter by ITS argument text ... *)
+Theorem C17_inner_parameter_shadows_outer_substitution : forall parent ps1 n v t ps2,
+  ~ In n (map (fun p => fst (fst p)) ps2) ->
+  ctx_token_subst (rule_ctx parent (ps1 ++ (n, v, t) :: ps2)) n = Some t.
+Proof. exact inner_param_shadows_outer_subst. Qed.
+
+(* ... and inside a function body a parameter is substituted BY VALUE, whatever the caller's context binds the name to *)
+Theorem C17_fn_parameter_substituted_by_value : forall caller ps n,
+  In n (map fst ps) -> ctx_token_subst (fn_ctx caller ps) n = Some (hygienize_name n).
+Proof. exact fn_param_substituted_by_value. Qed.
+
+Example C17_shadowing_nonvacuous :
+  let outer := rule_ctx ctx_new [(t_of "a", VInt (un 5), t_of "5")] in
+  ctx_token_subst outer (t_of "a") = Some (t_of "5") /\
+  ctx_token_subst (ctx_set_local (rule_ctx outer [(t_of "b", VInt (un 10), t_of "{a} * 2")]) (t_of "a") (VInt (un 11))) (t_of "a") = Some (t_of "__a") /\
+  ctx_token_subst (fn_ctx outer [(t_of "a", VInt (un 6))]) (t_of "a") = Some (t_of "__a").
+Proof. vm_compute. repeat split. Qed.
